@@ -6,6 +6,7 @@ import (
 	"go/token"
 	"go/types"
 	"golang.org/x/tools/go/ssa"
+	"golang.org/x/tools/go/types/typeutil"
 	"sort"
 	"strings"
 	"verifsa/internal/paths"
@@ -49,6 +50,8 @@ func runC02(c *core.Ctx) {
 	// "decoding a conformant image yields exactly the field values that image carries": binary slots must be read raw,
 	// text slots with the trimming primitive (the C01 kind rule, judged against the specification tables)
 	c.MinInstances("C02-KIND", 40)
+	c.MinInstances("C02-HDRFN", 14)
+	headerHelpers(c)
 	importRulesFn(c, "C01", "C02-KIND", func(sub *core.Ctx) {
 		for _, p := range loadPDUs(sub).list {
 			if p.Enc != nil && p.Dec != nil {
@@ -744,4 +747,121 @@ func ssaLinFields(v ssa.Value, recv ssa.Value, depth int) (linForm, bool) {
 		}
 	}
 	return linForm{}, false
+}
+
+// headerHelpers: the exported header helpers of a protocol package are siblings of one layout. ReadHeader fixes the
+// order and widths of the header words; WriteHeader must write exactly those, WriteHeaderNoLength all but the length word
+// (the writer's BytesWithLength supplies it). A word dropped or swapped in a helper that the PDUs of the package do not
+// use themselves would otherwise go unnoticed.
+func headerHelpers(c *core.Ctx) {
+	x := &wire.Extractor{Prog: c.Prog}
+	image := func(fn *types.Func, encode bool) ([]string, string) {
+		seq, err := x.ExtractFunc(fn, encode)
+		if err != nil {
+			return nil, err.Error()
+		}
+		if len(seq.Opaque) > 0 {
+			return nil, "not analysable: " + strings.Join(seq.Opaque, "; ")
+		}
+		var out []string
+		for _, o := range seq.Ops {
+			if o.Kind != wire.INT || o.Field.Last() == nil {
+				return nil, "an operation that is not an integer word of a header field: " + o.String()
+			}
+			out = append(out, fmt.Sprintf("U%d(%s)", o.Width*8, o.Field.Last().Name()))
+		}
+		return out, ""
+	}
+	for _, rel := range []string{"cmpp", "smgp", "smpp", "sgip"} {
+		rd := c.Prog.LookupFunc(rel, "ReadHeader")
+		if rd == nil {
+			c.Broken("C02-HDRFN", rel+".ReadHeader", "function not found")
+			continue
+		}
+		ref, why := image(rd, false)
+		pos := c.Prog.Pos(rd.Pos())
+		if why != "" || len(ref) < 3 {
+			c.Unknown("C02-HDRFN", rel+".ReadHeader", pos, "the header reader is not a sequence of at least three integer words: "+why)
+			continue
+		}
+		c.OK("C02-HDRFN", rel+".ReadHeader", pos, "reads "+strings.Join(ref, " "))
+		for _, h := range []struct {
+			name string
+			skip int
+		}{{"WriteHeader", 0}, {"WriteHeaderNoLength", 1}} {
+			fn := c.Prog.LookupFunc(rel, h.name)
+			if fn == nil {
+				continue // not every package has both
+			}
+			got, why := image(fn, true)
+			key := rel + "." + h.name
+			fpos := c.Prog.Pos(fn.Pos())
+			if why != "" {
+				c.Unknown("C02-HDRFN", key, fpos, why)
+				continue
+			}
+			want := ref[h.skip:]
+			c.Decide(strings.Join(got, " ") == strings.Join(want, " "), "C02-HDRFN", key, fpos, "writes "+strings.Join(got, " ")+" = what ReadHeader reads",
+				fmt.Sprintf("%s writes [%s] but ReadHeader of the package reads [%s]: the helper does not produce the header its sibling parses", h.name, strings.Join(got, " "), strings.Join(want, " ")))
+		}
+		// the encoding/binary based pair (Header.Bytes, NewHeaderFromReader): the same words in the same order, big-endian
+		for _, h := range []struct {
+			typ, name, prim string
+		}{{"Header", "Bytes", "Write"}, {"", "NewHeaderFromReader", "Read"}} {
+			var fn *types.Func
+			key := rel + "." + h.name
+			if h.typ != "" {
+				fn = c.Prog.LookupMethod(rel, h.typ, h.name)
+				key = rel + "." + h.typ + "." + h.name
+			} else {
+				fn = c.Prog.LookupFunc(rel, h.name)
+			}
+			if fn == nil {
+				continue
+			}
+			decl, pkg := c.Prog.FuncDecl(fn)
+			if decl == nil || decl.Body == nil {
+				continue
+			}
+			var got []string
+			problem := ""
+			ast.Inspect(decl.Body, func(n ast.Node) bool {
+				call, ok := n.(*ast.CallExpr)
+				if !ok || len(call.Args) != 3 {
+					return true
+				}
+				cal := typeutil.StaticCallee(pkg.TypesInfo, call)
+				if cal == nil || cal.Pkg() == nil || cal.Pkg().Path() != "encoding/binary" || cal.Name() != h.prim {
+					return true
+				}
+				if wire.OrderOf(c.Prog, pkg.TypesInfo, call.Args[1]) != "big" {
+					problem = "a header word is not transferred big-endian at " + c.Prog.Pos(call.Pos())
+				}
+				arg := ast.Unparen(call.Args[2])
+				if u, isU := arg.(*ast.UnaryExpr); isU && u.Op == token.AND {
+					arg = ast.Unparen(u.X)
+				}
+				sel, isSel := arg.(*ast.SelectorExpr)
+				wd := 0
+				if isSel {
+					if bt, isB := pkg.TypesInfo.TypeOf(sel).Underlying().(*types.Basic); isB {
+						wd = map[types.BasicKind]int{types.Uint8: 8, types.Uint16: 16, types.Uint32: 32, types.Uint64: 64, types.Int8: 8, types.Int16: 16, types.Int32: 32, types.Int64: 64}[bt.Kind()]
+					}
+				}
+				if !isSel || wd == 0 {
+					problem = "binary." + h.prim + " of something other than a fixed-width header field at " + c.Prog.Pos(call.Pos())
+					return true
+				}
+				got = append(got, fmt.Sprintf("U%d(%s)", wd, sel.Sel.Name))
+				return true
+			})
+			fpos := c.Prog.Pos(fn.Pos())
+			if problem != "" {
+				c.Fail("C02-HDRFN", key, fpos, problem)
+				continue
+			}
+			c.Decide(strings.Join(got, " ") == strings.Join(ref, " "), "C02-HDRFN", key, fpos, "binary."+h.prim+" of "+strings.Join(got, " ")+" = what ReadHeader reads",
+				fmt.Sprintf("%s transfers [%s] but ReadHeader of the package reads [%s]", h.name, strings.Join(got, " "), strings.Join(ref, " ")))
+		}
+	}
 }
